@@ -3,6 +3,7 @@
 -/
 import OHVerif.Model.Driver
 import OHVerif.Model.Plain
+import OHVerif.Model.Signature
 
 namespace OH
 
@@ -27,6 +28,7 @@ def Graph.ArrowErr.sym : Graph.ArrowErr → String
   | .notNaturalS => "NotNaturalS" | .notNaturalT => "NotNaturalT"
 
 namespace Drv
+open Sig
 
 def encExcept {α} [Enc α] (e : Except HGErr α) : Sx :=
   match e with
@@ -229,25 +231,6 @@ def graph (B : Backend) (op : String) (args : List Sx) (impl : Sx) : Option Outc
   | _, _ => none
 
 /-! ### evaluation over the test signature (wrapping u64 arithmetic and bitwise gates) -/
-
-def W : Nat := 18446744073709551616
-
-def opfn (label : Nat) (args : List Nat) : List Nat :=
-  let h := args.headD 0
-  match label with
-  | 0 => [args.foldl (fun a b => (a + b) % W) 0]
-  | 1 => [args.foldl (fun a b => (a * b) % W) 1]
-  | 2 => [(W - h) % W]
-  | 3 => [h, h]
-  | 4 => []
-  | 5 => [3]
-  | 6 => [args.foldl (fun a b => a &&& b) (W - 1)]
-  | 7 => [args.foldl (fun a b => a ^^^ b) 0]
-  | 8 => [(W - 1) ^^^ h]
-  | l => [(l - 10) % W]
-
-def applySig : Graph.Apply Nat Nat := fun labels inputs =>
-  IC.ofSegsL (List.zipWith opfn labels inputs.segsL)
 
 /-- the interpreter with a log of the `(label, args)` pairs of every call -/
 def evalLogged (B : Backend) (f : F) (s : L) : Res (L × List (List (Nat × L))) := do
